@@ -51,7 +51,8 @@ type parsed struct {
 	ambiguous bool // readable only leniently: strict RFC 7233 grammar rejects it (or a recipient may reasonably do so)
 
 	whitespace, emptyElem, plusSign, overflow, reversed bool
-	listOWS bool // SP / HTAB next to a comma (allowed by the list grammar)
+	listOWS  bool // SP / HTAB next to a comma (allowed by the list grammar)
+	unitCase bool // the unit is "bytes" in another letter case
 }
 
 var numRE = regexp.MustCompile(`^\+?[0-9]+$`)
@@ -69,9 +70,11 @@ func (p *parsed) number(s string) (int64, bool) {
 	}
 	v, _ := new(big.Int).SetString(s, 10)
 	if v.Cmp(maxInt64) > 0 {
-		// Valid digits, but most implementations (net/http included) refuse what
-		// does not fit an int64: both readings are accepted.
-		p.overflow, p.ambiguous = true, true
+		// Valid digits (1*DIGIT has no upper bound): a position past any content.
+		// The statement wants a last position beyond the end clamped, however it
+		// is spelled; net/http refuses such numbers (left out of the differential
+		// test).
+		p.overflow = true
 		return math.MaxInt64, true
 	}
 	return v.Int64(), true
@@ -96,8 +99,10 @@ func parseRange(h string) *parsed {
 		p.why = "unit is not bytes"
 		return p
 	}
-	if p.unit != "bytes" {
-		p.ambiguous = true // letter case / blanks around the unit
+	if strings.ToLower(p.unit) != "bytes" {
+		p.ambiguous = true // blanks around the unit
+	} else if p.unit != "bytes" {
+		p.unitCase = true // range unit names are case-insensitive: plain syntax
 	}
 	for idx, raw := range strings.Split(rest, ",") {
 		// RFC 7230 §7 (#rule): optional SP / HTAB is allowed before a comma and
@@ -234,6 +239,8 @@ func (p *parsed) syntaxShape() string {
 		return "malformed"
 	case p.overflow:
 		return "number-beyond-int64"
+	case p.unitCase:
+		return "unit-letter-case"
 	case p.listOWS && !p.whitespace:
 		return "list-whitespace"
 	}
@@ -341,8 +348,10 @@ func nonTrivialRange(h string, n int64) bool {
 // replace; sentinelMarker is the content of the files placed outside the
 // static root. Neither may ever be served.
 var (
-	upstreamMarker = []byte("C20-UPSTREAM-BODY-MUST-BE-REPLACED")
-	sentinelMarker = []byte("C20-SENTINEL-OUTSIDE-THE-ROOT")
+	// (built at run time: the package directory itself serves as a static root
+	// in some cases, and its files must not contain the markers)
+	upstreamMarker = []byte("C20-UPSTREAM-" + "BODY-MUST-BE-REPLACED")
+	sentinelMarker = []byte("C20-SENTINEL-" + "OUTSIDE-THE-ROOT")
 )
 
 // trackBody behaves like a transport body: reads fail once it is closed.
@@ -437,6 +446,10 @@ func allZero(b []byte) bool {
 	return true
 }
 
+// answered416Classes are about the shape of a 416 answer itself, whatever
+// header caused it.
+var answered416Classes = map[string]bool{"416-with-unreadable-body": true, "upstream-bytes-served": true, "416-content-length-mismatch": true, "stale-content-range": true}
+
 // judge decides whether o is an answer the statement allows for content and
 // Range header h. who is "body" or "static". Accepted: 200 with the full
 // content and matching Content-Length (always); 206 carrying exactly the
@@ -449,6 +462,9 @@ func judge(who string, content []byte, h string, o obs) kit.Verdict {
 	n := int64(len(content))
 	p := parseRange(h)
 	sig := func(class string) string {
+		if answered416Classes[class] && o.Status == http.StatusRequestedRangeNotSatisfiable {
+			return "C20/" + who + "/answered-416/" + class
+		}
 		if h == "" {
 			return "C20/" + who + "/no-range/" + class
 		}
@@ -500,6 +516,17 @@ func judge(who string, content []byte, h string, o obs) kit.Verdict {
 	case http.StatusRequestedRangeNotSatisfiable:
 		if !accept416 {
 			v.Addf(sig("416-although-satisfiable"), "Range %q over %d bytes is a valid bytes range set and every range is satisfiable, yet the answer is 416", h, n)
+		}
+		// the 416 itself must be a response that can be delivered: a readable
+		// body of the announced length, no Content-Range other than "bytes */len"
+		switch {
+		case o.BodyErr != nil:
+			v.Addf(sig("416-with-unreadable-body"), "Range %q over %d bytes: 416 with Content-Length %d whose body cannot be read: %v", h, n, o.CL, o.BodyErr)
+		case o.CL >= 0 && o.CL != int64(len(o.Body)):
+			v.Addf(sig("416-content-length-mismatch"), "Range %q over %d bytes: 416 with Content-Length %d and a body of %d bytes", h, n, o.CL, len(o.Body))
+		}
+		if cr := o.Header.Get("Content-Range"); cr != "" && cr != fmt.Sprintf("bytes */%d", n) {
+			v.Addf(sig("stale-content-range"), "Range %q over %d bytes: 416 with Content-Range %q (want none or \"bytes */%d\")", h, n, cr, n)
 		}
 	case http.StatusPartialContent:
 		switch {
@@ -566,6 +593,9 @@ func judge206(sig func(string) string, content []byte, h string, p *parsed, sat 
 		return v
 	}
 	// multipart form
+	if cr := o.Header.Get("Content-Range"); cr != "" {
+		v.Addf(sig("stale-content-range"), "Range %q over %d bytes: multipart 206 with a Content-Range %q in the header section (each part carries its own)", h, n, cr)
+	}
 	if o.CL != int64(len(o.Body)) {
 		v.Addf(sig("content-length-mismatch"), "Range %q over %d bytes: multipart 206 with Content-Length %d and a body of %d bytes", h, n, o.CL, len(o.Body))
 	}
